@@ -10,7 +10,8 @@ LEVEL_TEXT = ("TLC checks that the PlusCal mechanism model of AsyncLoop.h (one l
               "(no lost wake-up, destructor returns) for all scripts over {start, stop, settle} up to a bounded length, under all interleavings, "
               "both launch methods; negative-control variants (no re-check after publishing insideLoopBody; start() without the mutex) must be "
               "refuted.  The model is bound to the code: a transition cover of the model's state graph is replayed as forced schedules on the "
-              "real AsyncLoop through the hook points (serialised threads), plus seeded random serialised schedules and free-running executions "
+              "real AsyncLoop through the hook points (serialised threads), every covering prefix is also continued with start + settle as a "
+              "liveness probe, plus seeded random serialised schedules and free-running executions "
               "on all tasking backends; the recorded contract events of every execution are validated by TLC against AsyncLoopContract "
               "(this decides), and the recorded steps against the mechanism model (detects model drift).  A second model, AsyncLoopTSO, puts the "
               "stop()/body handshake under x86-TSO store buffers: it holds with the header's seq_cst stores and is refuted when either store "
@@ -100,6 +101,28 @@ def gen_schedules(chk, method, cfg):
     chk.log("AsyncLoop %s: %d states, %d transitions -> %d covering schedules (max length %d)"
             % (method, len(g.nodes), len(g.edges), len(scheds), max(len(s["sched"]) for s in scheds)))
     return scheds, len(g.edges)
+
+
+def probe_schedules(scheds):
+    """Liveness probes: every covering path, cut before the destructor phase, continued with start + settle (then the destructor):
+    whatever state of the model an execution was driven into, a later start() must still make the body run.  The forced part
+    comes from TLC's graph; the continuation is drained by the controller."""
+    out, seen = [], set()
+    for sc in scheds:
+        st = sc["sched"]
+        k = next((i for i, x in enumerate(st) if x[1].startswith("D_")), None)
+        if k is not None:
+            h = max((i for i in range(k) if st[i][1] == "H_next"), default=None)
+            if h is None:
+                continue
+            st = st[:h]
+        script = [x for x in sc["script"] if x != "destroy"] + ["start", "settle"]
+        key = (tuple(script), tuple(x[1] for x in st))
+        if key in seen:
+            continue
+        seen.add(key)
+        out.append({"method": sc["method"], "script": script, "mode": "follow", "sched": st, "probe": True})
+    return out
 
 
 def rand_script(rnd, maxlen):
@@ -320,6 +343,15 @@ def run(chk, replay=None):
             chk.note("model-drift: %d of %d model-derived schedules could not be followed by the real code (%s)" % (nd, len(scheds), method))
         chk.add_sample({"kind": "forced-schedule", "method": method, "script": scheds[len(scheds) // 2]["script"],
                         "steps": [x[1] for x in scheds[len(scheds) // 2]["sched"]]})
+        # liveness probes from every covered state (contract only: the continuation is outside the bounded model)
+        probes = probe_schedules(scheds)
+        pres = run_driver(exe, probes, "c03-probe-" + method)
+        pacc, pnrej, _, _, _ = validate_and_report(chk, probes, pres, "probe-" + method, "TBB", False)
+        chk.log("probe %s: %d covering prefixes continued with start + settle on the real code, contract: %d accepted / %d rejected"
+                % (method, len(probes), pacc, pnrej))
+        chk.cov["evaluations"] += len(probes)
+        chk.cov["distinct_nontrivial"] += len(probes)
+        chk.cov.setdefault("probes", {})[method] = len(probes)
 
     # 3. seeded random serialised schedules (model-free: also reaches behaviours the model does not have)
     n = 300 if quick else 3000
